@@ -94,18 +94,29 @@ ASSUMPTIONS = [
 ]
 
 # ------------------------------------------------------------------------------------------------ bounds
+def _names(chars):
+    """multi-character key names ('ka', 'kb', ...): one-character strings are singletons in CPython"""
+    return ["k" + c for c in chars]
+
+
+def _fk(name):
+    """a freshly built string object equal to `name` (round 5): every key / column name handed to the library is
+    a different object than the one used before, as keys computed at run time are (f-strings, concatenation)"""
+    return (name + "#")[:-1]
+
+
 FIELDS = ["p", "q"]
 RECS = [[1, 2.5], [0, "x"], [None, "yy"]]          # records (second one starts with a falsy value)
 PT = dict(
-    quick=dict(keys="abcd", nrec=2, depth=6, useq=3, urec=3, upos=5, pending=1),
-    thorough=dict(keys="abcde", nrec=2, depth=7, useq=4, urec=3, upos=6, pending=1),
+    quick=dict(keys=_names("abcd"), nrec=2, depth=6, useq=3, urec=3, upos=5, pending=1),
+    thorough=dict(keys=_names("abcde"), nrec=2, depth=7, useq=4, urec=3, upos=6, pending=1),
 )
 # additional keyed-table BFS runs (thorough): fewer keys, two refused new keys pending at a time
-PT_EXTRA = dict(quick=[], thorough=[dict(keys="abcd", nrec=2, depth=7, useq=0, urec=3, upos=5, pending=2)])
+PT_EXTRA = dict(quick=[], thorough=[dict(keys=_names("abcd"), nrec=2, depth=7, useq=0, urec=3, upos=5, pending=2)])
 ROWS = [[1, "b"], [2, "a"], [1, "a"], [3, "c"]]     # ties on both columns
 ROWS_T = [[1, "b"], [2, "a"], [1, "a"], [3, "cc"]]  # typed array mode: one string longer than one character
 ROWS_N = [[1, 2.5], [2, 1.5], [1, 1.5], [3, 0.0]]   # numeric rows for float64 array columns
-COLS = ["x", "y"]
+COLS = ["cx", "cy"]
 RC_CFG = {
     # name: (array, columns given, rows, dict key orders, list rows allowed)
     "list-cols": dict(array=False, cols="list", rows=ROWS),
@@ -120,8 +131,8 @@ COMB = dict(quick=dict(lists=3, length=3, plists=3, plength=3), thorough=dict(li
 PVARIANTS = ("pattern-labels", "pattern-eqtypes", "pattern-unhashable")
 # size families (round 4): tables / collectors of exactly n entries, n beyond anything the BFS reaches
 LIN = dict(
-    quick=dict(keys="abcdefghijkl", nrec=2, urec=3, upos=12, pending=1, nmax=12, rows=12),
-    thorough=dict(keys="abcdefghijklmnopqrstuvwx", nrec=2, urec=3, upos=24, pending=1, nmax=24, rows=24),
+    quick=dict(keys=_names("abcdefghijkl"), nrec=2, urec=3, upos=12, pending=1, nmax=12, rows=12),
+    thorough=dict(keys=_names("abcdefghijklmnopqrstuvwx"), nrec=2, urec=3, upos=24, pending=1, nmax=24, rows=24),
 )
 # overlapping iterations of one DataPlotGrid (round 4): (k generators, n range, ncols range, kinds, prefix length)
 MIX = dict(
@@ -232,7 +243,8 @@ def _pt_new(keyed, root, cfg):
     n = root[1]
     if keyed:
         params = {cfg["keys"][i]: list(RECS[i % 2]) for i in range(n)}
-        return ParameterTable(list(FIELDS), params, keys=True), [{k: tuple(v) for k, v in params.items()}]
+        return (ParameterTable(list(FIELDS), {_fk(k): v for k, v in params.items()}, keys=True),
+                [{k: tuple(v) for k, v in params.items()}])
     params = [list(RECS[i % 2]) for i in range(n)]
     return ParameterTable(list(FIELDS), params), [tuple(v) for v in params]
 
@@ -261,11 +273,11 @@ def _pt_read(t, keyed, op, cfg):
     """perform one read operation; its own outcome is not judged (the read-out after the history is)"""
     kind = op[1]
     if kind == "attr":
-        _obs(lambda: getattr(t, op[2]))
+        _obs(lambda: getattr(t, _fk(op[2])))
     elif kind == "key":
-        _obs(lambda: t[op[2]])
+        _obs(lambda: t[_fk(op[2])])
     elif kind == "in":
-        _obs(lambda: op[2] in t)
+        _obs(lambda: _fk(op[2]) in t)
     elif kind == "pos":
         _obs(lambda: t[op[2]])
     elif kind == "keys":
@@ -345,14 +357,14 @@ def _pt_apply(t, m, keyed, op, cfg=None):
         kinds = set()
         if op[0] in ("append", "set"):
             rec = tuple(RECS[op[2]])
-            got = _obs((lambda: t.append(op[1], list(rec))) if op[0] == "append"
-                       else (lambda: t.__setitem__(op[1], list(rec))))
+            got = _obs((lambda: t.append(_fk(op[1]), list(rec))) if op[0] == "append"
+                       else (lambda: t.__setitem__(_fk(op[1]), list(rec))))
             for c in m:
                 c[op[1]] = rec
             kinds.add("ok")
         elif op[0] in ("append!", "set!"):
             bad = BAD[op[0]]
-            got = _obs((lambda: t.append(op[1], bad)) if op[0] == "append!" else (lambda: t.__setitem__(op[1], bad)))
+            got = _obs((lambda: t.append(_fk(op[1]), bad)) if op[0] == "append!" else (lambda: t.__setitem__(_fk(op[1]), bad)))
             forks = []
             for c in m:
                 if op[1] not in c:
@@ -362,7 +374,7 @@ def _pt_apply(t, m, keyed, op, cfg=None):
             m = m + forks
             kinds.add("raises")
         else:
-            got = _obs(lambda: _del(op[1]))
+            got = _obs(lambda: _del(_fk(op[1])))
             for c in m:
                 if op[1] not in c:
                     kinds.add("raises")
@@ -454,14 +466,14 @@ def _pt_readout(t, n, keyed, cfg):
         got.append(("len", _obs(lambda: len(t))))
         got.append(("shape", _obs(lambda: list(t.shape()))))
         for k in cfg["keys"]:
-            got.append(("key[%s]" % k, _obs(lambda: _rec(t[k]))))
+            got.append(("key[%s]" % k, _obs(lambda: _rec(t[_fk(k)]))))
         for i in range(n):
             got.append(("pos[%d]" % i, _obs(lambda: _rec(t[i]))))
         got.append(("posend[%d]" % n, _obs(lambda: _rec(t[n]))))
         for k in cfg["keys"]:
-            got.append(("attr[%s]" % k, _obs(lambda: _rec(getattr(t, k)))))
+            got.append(("attr[%s]" % k, _obs(lambda: _rec(getattr(t, _fk(k))))))
         for k in cfg["keys"]:
-            got.append(("in[%s]" % k, _obs(lambda: k in t)))
+            got.append(("in[%s]" % k, _obs(lambda: _fk(k) in t)))
         got.append(("iter", _obs(lambda: _iter_capped(t, n + 2))))
         got.append(("items", _obs(lambda: [[k, _rec(r)] for k, r in t.items()])))
         got.append(("data", _obs(lambda: [[k, [[f, _v(x)] for f, x in d.items()]] for k, d in t.data().items()])))
@@ -584,9 +596,9 @@ def _rc_new(cname, root):
     from scinumtools import RowCollector
     c = RC_CFG[cname]
     if c["cols"] == "list":
-        cols = list(COLS)
+        cols = [_fk(c_) for c_ in COLS]
     elif c["cols"] == "typed":
-        cols = {"x": dict(dtype=int), "y": dict(dtype=str)}
+        cols = {_fk("cx"): dict(dtype=int), _fk("cy"): dict(dtype=str)}
     else:
         cols = None
     rows = [list(r) for r in c["rows"][:root[1]]] if root[0] == "ctor" else None
@@ -620,9 +632,9 @@ def _rc_read(rc, op):
         _obs(lambda: (str(rc), repr(rc)))
     for col in COLS:
         if kind == "all" or (kind == "item" and op[2] == col):
-            _obs(lambda: list(rc[col]))
+            _obs(lambda: list(rc[_fk(col)]))
         if kind == "all" or (kind == "attr" and op[2] == col):
-            _obs(lambda: list(getattr(rc, col)))
+            _obs(lambda: list(getattr(rc, _fk(col))))
 
 
 def _rc_ops(cname, model, fine=True):
@@ -631,15 +643,15 @@ def _rc_ops(cname, model, fine=True):
     ops = []
     if c["cols"] is None:
         for i in range(len(c["rows"])):
-            ops.append(["dict", i, "xy"])
-            ops.append(["dict", i, "yx"])
+            ops.append(["dict", i, "cx,cy"])
+            ops.append(["dict", i, "cy,cx"])
         if not model["cols"]:
             return ops + _rc_reads(fine)     # nothing to sort by, list rows not demanded before columns exist
     else:
         for i in range(len(c["rows"])):
             ops.append(["list", i])
         for i in range(len(c["rows"])):
-            ops.append(["dict", i, "yx"])
+            ops.append(["dict", i, "cy,cx"])
         ops.append(["dict!", 0, "missing"])      # fault transitions: a dict row that cannot be stored
         ops.append(["dict!", 1, "extra"])
     for col in COLS:
@@ -662,8 +674,8 @@ def _rc_rows(rc, model):
     cols = {}
     for name in model["cols"]:
         a = [_n(v) for v in d[name]]
-        b = [_n(v) for v in rc[name]]
-        c = [_n(v) for v in getattr(rc, name)]
+        b = [_n(v) for v in rc[_fk(name)]]
+        c = [_n(v) for v in getattr(rc, _fk(name))]
         if not (a == b == c):
             raise _Diff("accessors", a, dict(item=b, attr=c))
         cols[name] = a
@@ -765,7 +777,8 @@ def _rc_run(cname, hist):
             continue
         if op[0] == "dict!":
             row = c["rows"][op[1]]
-            d = {"x": row[0]} if op[2] == "missing" else {"x": row[0], "y": row[1], "z": 0}
+            d = ({_fk("cx"): row[0]} if op[2] == "missing"
+                 else {_fk("cx"): row[0], _fk("cy"): row[1], _fk("cz"): 0})
             res = _obs(lambda: rc.append(d))
             if res[0] == "ok":
                 model["undefined"] = True            # accepting such a row is not judged and not explored further
@@ -789,12 +802,12 @@ def _rc_run(cname, hist):
             res = _obs(lambda: rc.append(list(row)))
         elif op[0] == "dict":
             row = c["rows"][op[1]]
-            names = list(op[2])
+            names = op[2].split(",")
             if not model["cols"]:
                 model["cols"] = list(names)          # a dict on a column-less collector defines the columns
-            res = _obs(lambda: rc.append({nm: row[COLS.index(nm)] for nm in names}))
+            res = _obs(lambda: rc.append({_fk(nm): row[COLS.index(nm)] for nm in names}))
         else:
-            res = _obs(lambda: rc.sort(op[1], reverse=True) if op[2] else rc.sort(op[1]))
+            res = _obs(lambda: rc.sort(_fk(op[1]), reverse=True) if op[2] else rc.sort(_fk(op[1])))
         if op[0] in ("list", "dict"):
             model["rows"].append(tuple(row[COLS.index(nm)] for nm in model["cols"]))
         if res[0] != "ok":
@@ -1080,12 +1093,12 @@ def _lin_rc(cname, tier, sh):
     pre = "rc-" + cname
     for n in range(1, LIN[tier]["rows"] + 1):
         if c["cols"] is None:
-            build = [["dict", i % 4, "xy"] for i in range(n)]
-            follow = [["dict", 0, "yx"]]
+            build = [["dict", i % 4, "cx,cy"] for i in range(n)]
+            follow = [["dict", 0, "cy,cx"]]
         else:
             build = [["list", i % 4] for i in range(n)]
-            follow = [["list", 0], ["dict", 1, "yx"], ["dict!", 0, "missing"]]
-        follow += [["sort", "x", False], ["sort", "y", True]]
+            follow = [["list", 0], ["dict", 1, "cy,cx"], ["dict!", 0, "missing"]]
+        follow += [["sort", "cx", False], ["sort", "cy", True]]
         new = n > RC[tier]["depth"]
         root = [["new"]] + build
         for r in [None] + _rc_reads(True):
